@@ -149,7 +149,10 @@ def solve_fixed_point_steffensen(
                     f"Last error={error:.1e}."
                 )
                 raise ConvergenceError(msg)
-            if error < convergence_tol:
+            # A small update does not by itself imply x is close to a fixed point as a
+            # very large second function evaluation x2 also makes the update small,
+            # therefore additionally check the fixed point residual at x
+            if error < convergence_tol and norm(func(x) - x) < convergence_tol:
                 return x
             x0 = x
     except (ValueError, LinAlgError) as e:
